@@ -54,6 +54,12 @@ def work_cli(bins, tz, cases):
             if via == "bumped":
                 argv = ["version", "--source", "none", "--tag-version", "1.0.7", "--bumped-timestamp", str(t), "--schema", preset, "--output-format", fmt]
                 r = core.run_zerv(bins, argv, env=env)
+            elif via == "both":
+                # commit time and tag time both known: the commit time decides ("or, failing that, tag time")
+                other = (t * 7919 + 86400 * 400) % (LAST_DAY * DAY)
+                ron = STDIN_OBJ % ("Some(%d)" % t, "Some(%d)" % other)
+                argv = ["version", "--source", "stdin", "--schema", preset, "--output-format", fmt]
+                r = core.run_zerv(bins, argv, stdin=ron, env=env)
             else:
                 ron = STDIN_OBJ % ("None", "Some(%d)" % t)
                 argv = ["version", "--source", "stdin", "--schema", preset, "--output-format", fmt]
@@ -72,6 +78,10 @@ def work_cli(bins, tz, cases):
             if via == "bumped":
                 argv = ["version", "--source", "none", "--tag-version", "3.0.0", "--bumped-timestamp", str(t), "--schema-ron", schema]
                 r = core.run_zerv(bins, argv, env=env)
+            elif via == "both":
+                other = (t * 7919 + 86400 * 400) % (LAST_DAY * DAY)
+                ron = STDIN_OBJ % ("Some(%d)" % t, "Some(%d)" % other)
+                r = core.run_zerv(bins, ["version", "--source", "stdin", "--schema-ron", schema], stdin=ron, env=env)
             else:
                 ron = STDIN_OBJ % ("None", "Some(%d)" % t)
                 r = core.run_zerv(bins, ["version", "--source", "stdin", "--schema-ron", schema], stdin=ron, env=env)
@@ -133,10 +143,10 @@ def run(ctx):
     ncal = 2500 if quick else 40000
     for i in range(ncal):
         t = rng.choice(ts) if rng.random() < 0.7 else rng.randrange(0, (LAST_DAY + 1) * DAY)
-        cases.append(("calver", rng.choice(CALVER), t, rng.choice(["semver", "pep440"]), "bumped" if rng.random() < 0.7 else "last"))
+        cases.append(("calver", rng.choice(CALVER), t, rng.choice(["semver", "pep440"]), rng.choice(["bumped", "bumped", "last", "both"])))
     for p in cal.PATTERNS:
         for i in range(40 if quick else 600):
-            cases.append(("ts", p, rng.choice(ts), "bumped" if i % 3 else "last"))
+            cases.append(("ts", p, rng.choice(ts), ["bumped", "last", "both"][i % 3]))
     rng.shuffle(cases)
     cparts = core.split_even(cases, 32)
     cjobs = [(ctx.bins, TZS[i % len(TZS)], p) for i, p in enumerate(cparts)]
